@@ -62,9 +62,12 @@ def run(ctx):
     ctx.check("unknown-key", f"{EF}:eol_lookup", any(isinstance(n, ast.Raise) for n in walk_own(lk)) and "_eol_filter_stack_map.get(key)" in norm(lk), "an unknown eol value is an error")
     # ---- converters ---------------------------------------------------------------
     for name, conv in ((TO_LF, "replace"), (TO_CRLF, "sub")):
-        fn = repo.func(EF, name)
-        g = build_cfg(fn)
+        from ..astutil import bind_roles, canonicalise
+
         where = f"{EF}:{name}"
+        fn = repo.func(EF, name)
+        fn = canonicalise(fn, bind_roles(fn, {"content": ("assign", "b''.join(chunks)")}, where))
+        g = build_cfg(fn)
         tests = [n for n in g.nodes if n.kind == "test"]
         ok = len(tests) == 1 and norm(tests[0].ast) == "b'\\x00' in content"
         ctx.check("nul-guard", where, ok, "the converter branches on `b'\\x00' in content`", construct=norm(tests[0].ast) if tests else "")
@@ -89,10 +92,10 @@ def run(ctx):
     # ---- application order ------------------------------------------------------------
     fo = repo.func(FI, "filtered_output_bytes")
     lo = [n for n in walk_own(fo) if isinstance(n, ast.For)]
-    ctx.check("application-order", f"{FI}:filtered_output_bytes", len(lo) == 1 and norm(lo[0].iter) == "reversed(filters)" and any(norm(c.func) == "filter.writer" for c in calls_in(lo[0])), "writers are applied in reversed stack order", construct=norm(lo[0].iter) if lo else "")
+    ctx.check("application-order", f"{FI}:filtered_output_bytes", len(lo) == 1 and norm(lo[0].iter) == "reversed(filters)" and any(norm(c.func) == f"{norm(lo[0].target)}.writer" for c in calls_in(lo[0])), "writers are applied in reversed stack order", construct=norm(lo[0].iter) if lo else "")
     fi = repo.func(FI, "filtered_input_file")
     li = [n for n in walk_own(fi) if isinstance(n, ast.For)]
-    ctx.check("application-order", f"{FI}:filtered_input_file", len(li) == 1 and norm(li[0].iter) == "filters" and any(norm(c.func) == "filter.reader" for c in calls_in(li[0])), "readers are applied in stack order", construct=norm(li[0].iter) if li else "")
+    ctx.check("application-order", f"{FI}:filtered_input_file", len(li) == 1 and norm(li[0].iter) == "filters" and any(norm(c.func) == f"{norm(li[0].target)}.reader" for c in calls_in(li[0])), "readers are applied in stack order", construct=norm(li[0].iter) if li else "")
 
 
 MUTANTS = [
